@@ -16,7 +16,7 @@ import "github.com/orda-io/orda/client/pkg/model"
 //@   mode wrap
 //@   props C05
 //@   requires w != nil && wiredWF(w) && ppp != nil && ppp.CheckPoint != nil && ppp.CheckPoint != w.checkPoint
-//@   requires n < 1000000 && j < 1000000 && w.checkPoint.Sseq < 4611686018427387904 && w.checkPoint.Cseq < 4611686018427387904
+//@   requires n < 1000000 && j < 1000000 && w.checkPoint.Sseq < 2305843009213693952 && w.checkPoint.Cseq < 2305843009213693952
 //@   requires ppp.CheckPoint.Sseq == w.checkPoint.Sseq + n + j && ppp.CheckPoint.Cseq == w.checkPoint.Cseq + j && len(ppp.Operations) == n
 //@   ensures[every-pulled-operation-is-kept] len(ppp.Operations) == n && suffixOf(ppp.Operations, old(ppp.Operations))
 //@   ensures[checkpoint-becomes-the-replys]  w.checkPoint.Sseq == ppp.CheckPoint.Sseq && w.checkPoint.Cseq == ppp.CheckPoint.Cseq
